@@ -584,6 +584,159 @@ pub fn kvs_with_verifier(seed: u64, worker: usize, slot: &Slot) {
     let _ = std::fs::remove_dir_all(&dir);
 }
 
+/////////////////////////////////////// soak: reads under a free-running store /////////////////////
+
+/// C01 / C03 rider: the histories seqsim explores have background work placed between client
+/// operations; here the flush thread and the compaction threads run freely under the scheduler
+/// while writers (each owning its keys) write, delete, read their own keys back and scan their
+/// own key range.  Read-your-writes per owner: a point read or a scan by the owner returns
+/// exactly the owner's last completed write of each key.  At the end (quiescent) every key and
+/// one full scan are compared with the final state.
+pub fn kvs_soak(seed: u64, worker: usize, slot: &Slot) {
+    let mut rng = Rng::new(seed);
+    let dir = fresh_dir(worker, "soak");
+    let o: Vec<(&str, String)> = vec![
+        ("--memtable-size-bytes", rng.pick(&[0u64, 64, 200]).to_string()),
+        ("--mani-log-rollover-ratio", rng.pick(&[0u64, 1, 2]).to_string()),
+        ("--l0-mandatory-compaction-threshold-files", rng.pick(&[1u64, 2, 4]).to_string()),
+        ("--sst-cache-bytes", rng.pick(&[0u64, 65536]).to_string()),
+    ];
+    let opts = options(&dir, &o);
+    let kvs = Arc::new(KeyValueStore::open(opts.clone()).unwrap_or_else(|e| violation("open-error", format!("{e}"))));
+    let daemons = start_daemons(&kvs, rng.range(1, 3) as usize);
+    let n_w = rng.range(1, 3) as usize;
+    let nkeys = rng.range(2, 5) as usize;
+    let finals: Arc<StdMutex<BTreeMap<Vec<u8>, Option<u64>>>> = Arc::new(StdMutex::new(BTreeMap::new()));
+    let reads = Arc::new(AtomicU64::new(0));
+    let scans = Arc::new(AtomicU64::new(0));
+    let mut handles = Vec::new();
+    for t in 0..n_w {
+        let kvs = Arc::clone(&kvs);
+        let finals = Arc::clone(&finals);
+        let reads = Arc::clone(&reads);
+        let scans = Arc::clone(&scans);
+        let mut rng = rng.fork();
+        let n = rng.range(6, 40);
+        handles.push(thread::spawn(move || {
+            let mut mine: BTreeMap<Vec<u8>, Option<u64>> = BTreeMap::new();
+            for i in 0..n {
+                let k = vec![b'w', b'0' + t as u8, b'0' + rng.below(nkeys as u64) as u8];
+                let id = ((t as u64) << 32 | i) + 1;
+                match rng.below(12) {
+                    0 | 1 => {
+                        kvs.del(&k).unwrap_or_else(|e| violation("del-error", format!("{e}")));
+                        mine.insert(k, None);
+                    }
+                    2 | 3 => {
+                        // read one of my keys back
+                        let mut tomb = false;
+                        let got = kvs.load(&k, &mut tomb).unwrap_or_else(|e| violation("read-error", format!("{e}")));
+                        let want = mine.get(&k).copied().flatten();
+                        reads.fetch_add(1, Ordering::SeqCst);
+                        if got.as_deref().map(value_id) != want {
+                            violation(
+                                "owner-read-differs-from-own-last-write",
+                                format!("key {:?}: read {:?}, own last write {:?}", String::from_utf8_lossy(&k), got.as_deref().map(value_id), want),
+                            );
+                        }
+                    }
+                    4 => {
+                        // scan my key range
+                        let lo: Bound<Vec<u8>> = Bound::Included(vec![b'w', b'0' + t as u8]);
+                        let hi: Bound<Vec<u8>> = Bound::Excluded(vec![b'w', b'0' + t as u8 + 1]);
+                        let got = (|| -> Result<Vec<(Vec<u8>, u64)>, String> {
+                            let mut c = kvs.range_scan(&lo, &hi).map_err(|e| format!("{e}"))?;
+                            c.seek_to_first().map_err(|e| format!("{e}"))?;
+                            let mut out = Vec::new();
+                            loop {
+                                c.next().map_err(|e| format!("{e}"))?;
+                                match c.key_value() {
+                                    Some(kv) => {
+                                        if let Some(v) = kv.value {
+                                            out.push((kv.key.to_vec(), value_id(v)));
+                                        }
+                                    }
+                                    None => break,
+                                }
+                            }
+                            Ok(out)
+                        })()
+                        .unwrap_or_else(|e| violation("scan-error", e));
+                        let want: Vec<(Vec<u8>, u64)> = mine.iter().filter_map(|(k, v)| v.map(|v| (k.clone(), v))).collect();
+                        scans.fetch_add(1, Ordering::SeqCst);
+                        if got != want {
+                            violation("owner-scan-differs-from-own-last-writes", format!("scan {:?}, own state {:?}", short_ids(&got), short_ids(&want)));
+                        }
+                    }
+                    _ => {
+                        kvs.put(&k, &value(id, 24)).unwrap_or_else(|e| violation("put-error", format!("{e}")));
+                        mine.insert(k, Some(id));
+                    }
+                }
+            }
+            let mut f = finals.lock().unwrap();
+            for (k, v) in mine {
+                f.insert(k, v);
+            }
+        }));
+    }
+    for h in handles {
+        if h.join().is_err() {
+            violation("client-panicked", "a client thread panicked".into());
+        }
+    }
+    kvs.verif_wait_flush_idle();
+    let work = kvs.verif().work_done();
+    stop_daemons(&kvs, daemons, "");
+    for (k, want) in finals.lock().unwrap().iter() {
+        let mut t = false;
+        let got = kvs.load(k, &mut t).unwrap_or_else(|e| violation("read-error-at-end", format!("{e}")));
+        if got.as_deref().map(value_id) != *want {
+            dump_levels(&kvs, &dir);
+            violation("final-read-differs-from-last-write", format!("key {:?}: read {:?}, last write {:?}", String::from_utf8_lossy(k), got.as_deref().map(value_id), want));
+        }
+    }
+    {
+        let lo: Bound<Vec<u8>> = Bound::Unbounded;
+        let hi: Bound<Vec<u8>> = Bound::Unbounded;
+        let mut c = kvs.range_scan(&lo, &hi).unwrap_or_else(|e| violation("scan-error-at-end", format!("{e}")));
+        c.seek_to_first().unwrap_or_else(|e| violation("scan-error-at-end", format!("{e}")));
+        let mut got = Vec::new();
+        loop {
+            c.next().unwrap_or_else(|e| violation("scan-error-at-end", format!("{e}")));
+            match c.key_value() {
+                Some(kv) => {
+                    if let Some(v) = kv.value {
+                        got.push((kv.key.to_vec(), value_id(v)));
+                    }
+                }
+                None => break,
+            }
+        }
+        let want: Vec<(Vec<u8>, u64)> = finals.lock().unwrap().iter().filter_map(|(k, v)| v.map(|v| (k.clone(), v))).collect();
+        if got != want {
+            violation("final-scan-differs-from-last-writes", format!("scan {:?}, state {:?}", short_ids(&got), short_ids(&want)));
+        }
+    }
+    let mut r = slot.lock().unwrap();
+    r.order_hash = rng::mix(&[seed, work, reads.load(Ordering::SeqCst), scans.load(Ordering::SeqCst)]);
+    r.nontrivial = work > 0;
+    r.steps = work;
+    *r.probes.entry("soak_owner_reads_under_background_work".into()).or_insert(0) += reads.load(Ordering::SeqCst);
+    *r.probes.entry("soak_owner_scans_under_background_work".into()).or_insert(0) += scans.load(Ordering::SeqCst);
+    *r.probes.entry("soak_background_work_units".into()).or_insert(0) += work;
+    let depth = kvs.verif_tree().verif_levels().iter().filter(|l| !l.is_empty()).count() as u64;
+    *r.probes.entry(format!("soak_final_tree_occupied_levels_{}", depth.min(6))).or_insert(0) += 1;
+    r.sample = Some(serde_json::json!({"writers": n_w, "keys_per_writer": nkeys, "options": o.iter().map(|(k, v)| format!("{k}={v}")).collect::<Vec<_>>()}));
+    drop(r);
+    drop(kvs);
+    let _ = std::fs::remove_dir_all(&dir);
+}
+
+fn short_ids(l: &[(Vec<u8>, u64)]) -> Vec<(String, u64)> {
+    l.iter().map(|(k, v)| (String::from_utf8_lossy(k).to_string(), *v)).collect()
+}
+
 /// The verifier failed with NotFound on trash/<digest>.sst: did two store transactions remove
 /// that digest (known defect F-C04-1)?  Decided from the bytes written to mani/MANIFEST.
 type Levels = Vec<Vec<(setsum::Setsum, Vec<u8>, Vec<u8>, u64, u64, u64)>>;
